@@ -108,9 +108,11 @@ FilterRef(cs) ==
   IF cs.body = "ok" THEN [propagates |-> "none", pred_called |-> cs.usage \in {"call_in_handler", "call_other_exc"}]
   ELSE [propagates |-> IF cs.pred \in {"True", "truthy"} THEN "none" ELSE "same_object", pred_called |-> TRUE]
 
-RemoveCases == {[body |-> b, remove |-> r] :
+\* path: what the path is when the body fails -- the remover is called whatever it is
+\* (delete_if_exists tolerates a missing file; a dangling symlink must go too)
+RemoveCases == {[body |-> b, remove |-> r, path |-> p] :
                    b \in {"ok", "raises_exception", "raises_base_exception"},
-                   r \in {"ok", "raises"}}
+                   r \in {"ok", "raises"}, p \in {"file", "missing", "dangling_symlink", "directory"}}
 RemoveRef(cs) ==
   CASE cs.body = "ok" -> [removed |-> FALSE, propagates |-> "none", logged |-> 0]
     [] cs.body = "raises_base_exception" -> [removed |-> FALSE, propagates |-> "original", logged |-> 0]
